@@ -3,6 +3,7 @@ package sim
 import (
 	"fmt"
 	"math/rand/v2"
+	"os"
 	"runtime"
 	"strings"
 	"sync"
@@ -147,6 +148,8 @@ func holdsLock(g uint64) bool {
 	return held[g] > 0
 }
 
+var noLockOrder = os.Getenv("VERIF_NOLOCKORDER") != ""
+
 // lockEvent: "@L:<lock>" / "@R:<lock>" (about to acquire) and "@U:<lock>" (about to release),
 // emitted by the instrumented copy. The driver keeps, per goroutine, the locks it holds and, per
 // run, the order in which locks were nested: holding A while acquiring B is the edge A->B. A cycle
@@ -198,7 +201,9 @@ func (d *Driver) yield(instanceID, site string) {
 		return
 	}
 	if strings.HasPrefix(site, "@") {
-		d.lockEvent(site)
+		if !noLockOrder && d.trackLocks {
+			d.lockEvent(site)
+		}
 		return
 	}
 	if site == "handleGracePeriodExpired" && instanceID == "" {
@@ -274,15 +279,16 @@ func (d *Driver) yield(instanceID, site string) {
 
 func newDriver(p *Plan, keepLog bool) *Driver {
 	d := &Driver{
-		plan:     p,
-		h:        &Hist{keepAll: keepLog},
-		wake:     make(chan struct{}, 1),
-		gids:     map[uint64]int{},
-		gidInst:  map[uint64]int{},
-		parked:   map[*yieldReq]bool{},
-		inflight: map[*Op]bool{},
-		opTrig:   map[[2]int][]*Action{},
-		firedAct: map[*Action]bool{},
+		trackLocks: p.judges("C09") || p.judges("C11") || p.judges("C13"),
+		plan:       p,
+		h:          &Hist{keepAll: keepLog},
+		wake:       make(chan struct{}, 1),
+		gids:       map[uint64]int{},
+		gidInst:    map[uint64]int{},
+		parked:     map[*yieldReq]bool{},
+		inflight:   map[*Op]bool{},
+		opTrig:     map[[2]int][]*Action{},
+		firedAct:   map[*Action]bool{},
 	}
 	d.stats.Faults = map[string]int{}
 	d.stats.Probes = map[string]int{}
